@@ -1505,6 +1505,16 @@ func (c *Curve[B, S]) scalarMulFakeGLV(Q *AffinePoint[B], s *emulated.Element[S]
 	// 		    = [3]R
 	c.AssertIsEqual(Acc, tableR[2])
 
+	if cfg.CompleteArithmetic {
+		// when s=0 or Q=(0,0) the check above is by-passed and the result is
+		// (0,0): it must not be left to the hint.
+		zero := c.baseApi.Zero()
+		isEdge := c.api.Or(selector1, selector2)
+		return &AffinePoint[B]{
+			X: *c.baseApi.Select(isEdge, zero, R[0]),
+			Y: *c.baseApi.Select(isEdge, zero, R[1]),
+		}
+	}
 	return &AffinePoint[B]{
 		X: *R[0],
 		Y: *R[1],
@@ -1530,15 +1540,14 @@ func (c *Curve[B, S]) scalarMulGLVAndFakeGLV(P *AffinePoint[B], s *emulated.Elem
 	}
 
 	// handle 0-scalar and (-1)-scalar cases
-	var selector0 frontend.Variable
+	var selector0, isZeroScalar, isMinusOne, isOne frontend.Variable
 	_s := s
 	if cfg.CompleteArithmetic {
 		one := c.scalarApi.One()
-		selector0 = c.api.Or(
-			c.scalarApi.IsZero(s),
-			c.scalarApi.IsZero(
-				c.scalarApi.Add(s, one)),
-		)
+		isZeroScalar = c.scalarApi.IsZero(s)
+		isMinusOne = c.scalarApi.IsZero(c.scalarApi.Add(s, one))
+		isOne = c.scalarApi.IsZero(c.scalarApi.Sub(s, one))
+		selector0 = c.api.Or(isZeroScalar, isMinusOne)
 		_s = c.scalarApi.Select(selector0, one, s)
 	}
 
@@ -1782,6 +1791,20 @@ func (c *Curve[B, S]) scalarMulGLVAndFakeGLV(P *AffinePoint[B], s *emulated.Elem
 	}
 	c.AssertIsEqual(Acc, &gm)
 
+	if cfg.CompleteArithmetic {
+		// In the edge cases the check above is by-passed, so the result must
+		// not be left to the hint: it is (0,0) when s=0 or P=(0,0), P when s=1
+		// and -P when s=-1. The by-pass on equal abscissas of P and the hinted
+		// point is only legitimate in those cases; otherwise a prover could
+		// claim [s]P = ±P for any s.
+		isEdge := c.api.Or(c.api.Or(selector0, _selector0), isOne)
+		c.api.AssertIsEqual(c.api.Mul(_selector1, c.api.Sub(1, isEdge)), 0)
+		zero := c.baseApi.Zero()
+		res := c.Select(isMinusOne, c.Neg(P), &AffinePoint[B]{X: *point[0], Y: *point[1]})
+		res = c.Select(isOne, P, res)
+		res = c.Select(c.api.Or(isZeroScalar, _selector0), &AffinePoint[B]{X: *zero, Y: *zero}, res)
+		return res
+	}
 	return &AffinePoint[B]{
 		X: *point[0],
 		Y: *point[1],
